@@ -408,10 +408,29 @@ def notation_matches(ctx, py: PyRepo):
     probs = []
     n = 0
     from ..core.pyfacts import self_method_resolver
+    ms_def = py.module('pattern').functions.get('match_single')
+    ms_params = [a.arg for a in ms_def.args.args] if ms_def is not None else []
+
+    def positional(v):
+        # match_single(pattern=.., instance=.., extend=None) is match_single(.., ..): keywords in parameter order, a trailing None dropped
+        if not isinstance(v, tuple):
+            return v
+        v = tuple(positional(x) for x in v)
+        if len(v) == 4 and v[0] == 'call' and v[1] == ('name', 'match_single') and (v[3] or len(v[2]) > 2):
+            kw = dict(v[3])
+            names = ms_params[len(v[2]):]
+            if len(kw) == len(v[3]) and set(kw) <= set(names) and all(n_ in kw for n_ in names[:len(kw)]):
+                args = list(v[2]) + [kw[n_] for n_ in names[:len(kw)]]
+                while len(args) > 2 and args[-1] == ('const', None):
+                    args.pop()
+                return ('call', v[1], tuple(args), ())
+        return v
     for p in PyEval(resolver=self_method_resolver(py, ci, SELF_, only_private=True)).paths(fn):
         if p.end[0] != 'return':
             continue
         n += 1
+        p.conds = [(positional(c), b) for c, b in p.conds]
+        p.end = (p.end[0], positional(p.end[1]))
         none = next((b for c, b in p.conds if c in (('cmp', 'is', M, ('const', None)), ('cmp', '==', M, ('const', None)))), None)
         if none is None:
             nn = next((b for c, b in p.conds if c == ('cmp', 'is not', M, ('const', None))), None)
